@@ -407,4 +407,37 @@ PROPS = {
         "gen_facts": ["Gen.Commands.commands = every cobra.Command literal (loader, CloseBackend wrapper, closes by hand); loaderFailures = failure "
                       "branches of the loaders and whether they close the backend; lockExclusive = RepoCache.lock creates the file with O_EXCL"],
     },
+    "C06": {
+        "level_text": "PARTIAL (power-loss semantics of the file system are outside the model; the unit of atomicity is one repository call "
+                      "or one file operation). Proved: reading an entity is blind to objects nothing points to (bfs_mono, read_mono); a "
+                      "write path that stores its objects and clocks first and updates one ref last, interrupted after any number of calls, "
+                      "shows every reader exactly the state before or the state after (path_crash_atomic, disciplined_shape), and a retry "
+                      "reads the final state (retry_completes); a path that persists the clock before it writes the commit carrying that "
+                      "value never leaves a stored time above the persisted clock (clock_not_behind; the converse order has a "
+                      "kernel-checked bad crash point); a clock file replaced by rename is never torn (atomic_clock_write) while the "
+                      "truncating write of the pinned tree is (truncating_clock_write_tears). Regenerated from the source on every run: "
+                      "the storage calls of the seven write functions obey the discipline (gen_paths_disciplined) and the clock file is "
+                      "written by rename (gen_clock_write_atomic). Every crash point of the real write paths is executed on disk.",
+        "level_note": "Trusted: Lean kernel, extractor, harness. A dying process is simulated inside the harness by a repository wrapper "
+                      "that never returns from its k-th storage call (objects written before are on disk as go-git left them); fsync, "
+                      "rename atomicity and go-git's loose-object writes are the file system's and library's business. Identity and cache "
+                      "scenarios are decided by the oracle only (the Lean store model is the bug DAG). Fixed in /repo: clock files were "
+                      "truncated in place.",
+        "required_theorems": ["bfs_mono", "read_mono", "path_crash_atomic", "disciplined_shape", "retry_completes", "clock_not_behind",
+                              "commit_before_clock_is_behind", "atomic_clock_write", "truncating_clock_write_tears",
+                              "gen_paths_disciplined", "gen_clock_write_atomic"],
+        "slices": ["C06"],
+        "rule": "go-git repositories on disk (three authors, bugs with several commits, a remote with a clone that is ahead): for each "
+                "write path (new bug; edit staged by several authors; MergeAll with a new, a fast-forward and a diverged bug; pull; new "
+                "identity; new identity version; new bug through the cache) the process dies before its k-th storage call for every k; "
+                "the directory is reopened, every bug and identity read, compared per entity with the states before and after, clocks "
+                "compared with the stored times, the action repeated; the recorded calls and the object store go to the model which "
+                "computes the view at every crash point. Clock files: every file operation of Increment/Witness x every partial write. "
+                "non-trivial/distinct = distinct (scenario, call sequence) and clock crash points",
+        "trusted_base": [KERNEL, TIE, "model: GitBugModel.Crash (applyMut, crash, view) over GitBugModel.Dag.read; GitBugModel.Lamport file states",
+                         "file system: a completed call is durable, rename replaces atomically"],
+        "assumptions": ["objects written by a path carry hashes not yet in the store (FreshObjs) and every ref read fine before the path started (Readable)"],
+        "gen_facts": ["Gen.WritePaths.paths = storage-mutating calls of Entity.Commit, operationPack.Write, dag.merge, Identity.Commit, Identity.Merge, "
+                      "version.Write, identity.MergeAll with loop depth and what follows a ref update; clockWrite = file-system calls of PersistedClock.Write"],
+    },
 }
